@@ -623,7 +623,7 @@ type creds struct {
 	basic, jwt, token, sess int // 0 none, 1 valid, 2 invalid (rejected by content), 3 malformed (not classified by the property)
 	jwtVia, tokVia         int // 0 header, 1 query parameter, 2 query parameter with a percent-encoded name, 3 parameter of a form body, 4 (token only) Authorization: Bearer
 	tokShape               int // rejected tokens: 0 opaque, 1 JWT of a foreign issuer, 2 JWT naming the trusted issuer, 3 opaque with a blank inside
-	jwtShape               int // rejected JWTs: 0 signature does not verify, 1 HMAC-signed naming the published key id, 2 signed by another key under the published key id, 3 expired
+	jwtShape               int // rejected JWTs: 0 signature does not verify, 1 HMAC-signed naming the published key id, 2 signed by another key under the published key id, 3 expired, 4 without key id and signed by another key
 	accept                 int // index into acceptValues
 	sibling                int // index into siblingCookies: another cookie sent along with the session cookie
 	ctSpelling             int // spelling of the form media type
@@ -728,6 +728,9 @@ func (c creds) allHeaders() map[string]string {
 		case 3:
 			claims["iat"], claims["exp"] = now-7200, now-3600
 			h["X-Jwt"] = simkeys.SignJWT(signKey, "k1", claims)
+		case 4:
+			// names no key at all and is signed by a key the issuer does not publish
+			h["X-Jwt"] = simkeys.SignJWT(otherKey, "", claims)
 		}
 		if c.jwtShape != 0 {
 			break
@@ -1133,7 +1136,7 @@ func pipeSim(r *simcore.Run) {
 			c.tokShape = []int{0, 1, 2, 3, 3}[s.Draw(5, "token-shape")]
 		}
 		if c.jwt == 2 {
-			c.jwtShape = s.Draw(4, "jwt-shape")
+			c.jwtShape = s.Draw(5, "jwt-shape")
 		}
 		c.accept = []int{0, 0, 0, 1, 2, 3, 4, 5}[s.Draw(8, "accept")]
 		if c.jwtVia == 3 || c.tokVia == 3 {
